@@ -165,6 +165,64 @@ def spec_operator_tables(ck):
     return levels
 
 
+def spec_binary_levels_fold_left(ck, levels):
+    """every binary level of the documented table is left-to-right: `a o1 b o2 c` (both operators of one level) is
+    (a o1 b) o2 c.  The closure each level hands to `map` is executed on an operand and two (operator, operand) pairs, with
+    parse2 recording its arguments: the result must be parse2(o2, parse2(o1, a, b), c)."""
+    db = ck.dbs['milu']
+    label = 'C09/binary-levels/same-level-operators-group-left-to-right'
+    if not levels:
+        return
+    ex = ck.engine(db=db, loop_bound=5)
+    ex.benign_havoc = harness.IRRELEVANT
+
+    def parse2(ctx):
+        ctx.st.trace.append(('parse2', ctx.args[0], ctx.args[1], ctx.args[2]))
+        return Agg('Binary', {0: ctx.args[0], 1: ctx.args[1], 2: ctx.args[2]})
+    ex.overrides.append((re.compile(r'(?:^|::)parse2$'), parse2))
+    ex.overrides.append((re.compile(r'<Binary as Into<.*>>::into$|<.* as Into<(?:script::)?Value>>::into$'), lambda ctx: ctx.args[0]))
+    decided = 0
+    for nm, lv in sorted(levels.items()):
+        f = lv['fn']
+        clos = [g for g in db.fns if g.name.startswith(f.name + '::{closure#') and g.name.count('{closure#') == 1 and len(g.params) == 2
+                and re.search(r'^\((?:script::)?Value, (?:std::vec::)?Vec<\((?:nom_locate::)?LocatedSpan<&str>, (?:script::)?Value\)>\)$', g.params[1][1].strip())]
+        if len(clos) != 1:
+            continue
+        c = clos[0]
+        ck.target(c)
+        st = State()
+        a, b, cc = Opaque('Value', 'a'), Opaque('Value', 'b'), Opaque('Value', 'c')
+        o1, o2 = Opaque('LocatedSpan<&str>', 'o1'), Opaque('LocatedSpan<&str>', 'o2')
+        rest = SeqV.from_items([Agg('tuple', {0: o1, 1: b}), Agg('tuple', {0: o2, 1: cc})], '(LocatedSpan<&str>, Value)', 'vec')
+        env = Ref(st.alloc(Agg(c.params[0][1].strip().lstrip('&').replace('mut ', '').strip(), {})), ())
+        for o in ex.call_fn(st, c, [env, Agg('tuple', {0: a, 1: rest})]):
+            if o.status != 'returned':
+                continue
+            decided += 1
+            r = o.ret
+            inner_ok = isinstance(r, Agg) and r.name == 'Binary' and r.fields[0] is o2 and r.fields[2] is cc and isinstance(r.fields[1], Agg) \
+                and r.fields[1].name == 'Binary' and r.fields[1].fields[0] is o1 and r.fields[1].fields[1] is a and r.fields[1].fields[2] is b
+            o.env['inputs'] = dict(o.env.get('inputs', {}), level=Bytes.from_py(nm.encode(), 'str'))
+            ex.prove(o, label, z3.BoolVal(bool(inner_ok)))
+    for f in ex.findings:
+        if not hasattr(f, 'target'):
+            f.target = 'binary level fold'
+    ck.plans.append(fold_replay_plan)
+    if not decided:
+        ck.add(label, 'inconclusive', 'no binary level hands `map` a closure over (operand, Vec<(operator, operand)>): the fold is written in a shape this check does not understand')
+    ck.absorb(ex, 'binary levels (fold)', None)
+    ck.bounds['binary-level-fold'] = 'each binary level: one operand followed by two (operator, operand) pairs'
+
+
+def fold_replay_plan(ob):
+    if (ob.target or '') != 'binary level fold' or not ob.label.startswith('C09/binary-levels/'):
+        return None
+    pairs = [('8 - 3 - 2', '(8 - 3) - 2'), ('8 / 2 / 2', '(8 / 2) / 2'), ('1 << 2 << 1', '(1 << 2) << 1'), ('8 - 3 + 2', '(8 - 3) + 2'), ('7 % 4 % 2', '(7 % 4) % 2'),
+             ('true == false == false', '(true == false) == false'), ('1 < 2 == true', '(1 < 2) == true'), ('1 & 3 & 2', '(1 & 3) & 2'), ('true && false && true', '(true && false) && true')]
+    cases = [{'driver': 'parse_pair', 'args': {'a': x, 'b': y}} for x, y in pairs]
+    return 'milu_script', cases, lambda o: o.get('both_parsed') is True and o.get('same_tree') is False
+
+
 def documented_prefix_operators(readme_text):
     """spellings of the documented prefix operators (syntax column `X …`), with their documented associativity"""
     out = []
